@@ -1,12 +1,385 @@
-//! C17: harness module (stub — not built yet)
-#![allow(dead_code, unused_imports, unused_variables)]
+//! C17: configuration entries reach exactly the modules they address.
+//!
+//! Script lines (all self-contained; entries are `dotted.key=value` tokens, values `[a-z0-9]+`):
+//!   cfg <entry>...                 `SimBuilder::include_cfg` of the flat YAML mapping with these entries
+//!   node <path>                    `SimBuilder::node(path, <empty module>)`
+//!   props <path>                   sorted `ModuleContext::props_keys` with `prop_raw(k).as_value()`
+//!   cap <path> <entry>...          `Cfg::new(flat mapping).capture_for_into(path)`: sorted keys + raw values
+//!   read  <path> <key> <str|u64>   `prop::<T>(key)` then `Prop::get`
+//!   readd <path> <key> <str|u64>   `prop::<T>(key)` then `or_default().get()`
+//!   write <path> <key> <str|u64> <val>   `prop::<T>(key)` then `set(val)`
+//! Transcript: the same lines extended with ` -> <answer>`:
+//!   cfg  -> ok | err (YAML text rejected by serde_yml: the include is silently ignored) | panic
+//!   node -> ok | panic
+//!   props/cap -> `-` | `k=v;k=v` (keys sorted; `~` = empty string; `!` = empty slot; `#n` number;
+//!                `{k:v,..}` mapping in stored order) | nomod | panic
+//!   read/readd/write -> none | s:<text> | n:<number> | ok | invalid | other | nomod | panic
+//! The YAML text is generated with every key and every scalar double-quoted (serde_yml parsing is an input).
 use crate::rng::Rng;
-use crate::util::{cases, guarded, hval};
+use crate::util::{cases, guarded};
+use des::prelude::*;
+use des_net_utils::props::{Cfg, Prop, PropType, Props};
+use serde_yml::Value;
+use std::fmt::Write;
+use std::io::ErrorKind;
 
-pub fn gen(_seed: u64, _count: usize, _thorough: bool) -> String {
-    String::new()
+const ANY: &str = "<any>";
+const MODSEG: [&str; 7] = ["a", "al", "alice", "alicent", "é", "b", "aé"];
+const NAMESEG: [&str; 7] = ["x", "y", "a", "al", "b", "tcp", "é"];
+
+struct Empty;
+impl Module for Empty {}
+
+// ------------------------------------------------------------------------------------ generator
+
+fn sibling(r: &mut Rng, s: &str) -> String {
+    // a name that shares a textual prefix with `s` where possible
+    let fam: &[&str] = match s {
+        "a" | "al" | "alice" | "alicent" | "aé" => &["a", "al", "alice", "alicent", "aé"],
+        _ => &MODSEG,
+    };
+    r.pick(fam).to_string()
 }
 
-pub fn exec(_input: &str) -> String {
-    String::new()
+fn gen_entry_key(r: &mut Rng, mods: &[Vec<String>]) -> Vec<String> {
+    let base: Vec<String> = if !mods.is_empty() && r.chance(5, 6) {
+        r.pick(mods).clone()
+    } else {
+        (0..r.range(1, 3)).map(|_| r.pick(&MODSEG).to_string()).collect()
+    };
+    let mut q: Vec<String> = Vec::new();
+    for s in &base {
+        let x = r.below(100);
+        if x < 55 {
+            q.push(s.clone());
+        } else if x < 82 {
+            q.push(ANY.to_string());
+        } else {
+            q.push(sibling(r, s));
+        }
+    }
+    // sometimes address the parent or a deeper module
+    if q.len() > 1 && r.chance(1, 8) {
+        q.pop();
+    }
+    if r.chance(1, 10) {
+        q.push(if r.chance(1, 2) { ANY.to_string() } else { r.pick(&MODSEG).to_string() });
+    }
+    let nlen = match r.below(10) {
+        0..=5 => 1,
+        6..=8 => 2,
+        _ => 3,
+    };
+    for i in 0..nlen {
+        if i + 1 < nlen && r.chance(1, 14) {
+            q.push(ANY.to_string()); // wildcard inside what looks like the name: addresses a deeper module
+        } else {
+            q.push(r.pick(&NAMESEG).to_string());
+        }
+    }
+    if r.chance(1, 40) {
+        q.push(ANY.to_string()); // outside the specified domain (key ends in the wildcard): model only
+    }
+    q
+}
+
+fn gen_cfg(r: &mut Rng, mods: &[Vec<String>], val: &mut u64, max: u64) -> Vec<String> {
+    let n = r.range(1, max);
+    let mut keys: Vec<String> = Vec::new();
+    let mut out = Vec::new();
+    for _ in 0..n {
+        let mut k = gen_entry_key(r, mods).join(".");
+        // provoke the scalar-prefix situation (F11b class) now and then
+        if !keys.is_empty() && r.chance(1, 30) {
+            let other = r.pick(&keys).clone();
+            if let Some(i) = other.find(".<any>") {
+                if i > 0 {
+                    k = other[..i].to_string();
+                }
+            } else {
+                k = format!("{other}.<any>.x");
+            }
+        }
+        if keys.contains(&k) {
+            continue;
+        }
+        keys.push(k.clone());
+        *val += 1;
+        out.push(format!("{k}=v{val}"));
+    }
+    out
+}
+
+pub fn gen(seed: u64, count: usize, thorough: bool) -> String {
+    let mut r = Rng::new(seed);
+    let mut out = String::new();
+    for k in 0..count {
+        writeln!(out, "case {k}").unwrap();
+        // module tree: one spine of depth 1..4 plus prefix-sharing siblings
+        let depth = r.range(1, 4) as usize;
+        let spine: Vec<String> = (0..depth).map(|_| r.pick(&MODSEG).to_string()).collect();
+        let mut mods: Vec<Vec<String>> = (1..=depth).map(|d| spine[..d].to_vec()).collect();
+        for _ in 0..r.range(0, 3) {
+            let d = r.range(1, depth as u64) as usize;
+            let mut p = spine[..d].to_vec();
+            p[d - 1] = sibling(&mut r, &spine[d - 1]);
+            if !mods.contains(&p) {
+                mods.push(p);
+            }
+        }
+        let mut val = 0u64;
+        let ncfg = if r.chance(1, 3) { 1 } else { r.range(1, 3) };
+        let maxe = if thorough { 9 } else { 6 };
+        let cfgs: Vec<Vec<String>> = (0..ncfg).map(|_| gen_cfg(&mut r, &mods, &mut val, maxe)).collect();
+        // interleave includes with node creation (parents first)
+        let mut pos: Vec<usize> = (0..ncfg).map(|_| r.below(mods.len() as u64 + 1) as usize).collect();
+        pos.sort();
+        let mut ci = 0;
+        for (i, m) in mods.iter().enumerate() {
+            while ci < pos.len() && pos[ci] == i {
+                writeln!(out, "cfg {}", cfgs[ci].join(" ")).unwrap();
+                ci += 1;
+            }
+            writeln!(out, "node {}", m.join(".")).unwrap();
+            if r.chance(1, 40) {
+                writeln!(out, "node {}", m.join(".")).unwrap(); // duplicate: must be refused
+            }
+        }
+        while ci < pos.len() {
+            writeln!(out, "cfg {}", cfgs[ci].join(" ")).unwrap();
+            ci += 1;
+        }
+        if r.chance(1, 30) {
+            writeln!(out, "node {}.{}.x", spine.join("."), r.pick(&MODSEG)).unwrap(); // parent missing
+        }
+        for m in &mods {
+            writeln!(out, "props {}", m.join(".")).unwrap();
+        }
+        // the same configurations directly through Cfg::capture_for_into, also for paths without a module
+        for c in &cfgs {
+            if c.is_empty() {
+                continue;
+            }
+            let npaths = if thorough { 4 } else { 2 };
+            for _ in 0..npaths {
+                let p: Vec<String> = if r.chance(2, 3) {
+                    r.pick(&mods).clone()
+                } else {
+                    (0..r.range(1, 4)).map(|_| r.pick(&MODSEG).to_string()).collect()
+                };
+                writeln!(out, "cap {} {}", p.join("."), c.join(" ")).unwrap();
+            }
+        }
+        // typed access
+        let names: Vec<String> = cfgs
+            .iter()
+            .flatten()
+            .filter_map(|e| e.split('=').next())
+            .filter_map(|k| k.rsplit('.').next().map(str::to_string))
+            .filter(|s| s != ANY)
+            .collect();
+        for _ in 0..r.range(0, 2) {
+            let m = r.pick(&mods).join(".");
+            let key = if !names.is_empty() && r.chance(3, 4) { r.pick(&names).clone() } else { "zz".to_string() };
+            for _ in 0..r.range(2, 5) {
+                let ty = if r.chance(1, 2) { "str" } else { "u64" };
+                match r.below(4) {
+                    0 | 1 => writeln!(out, "read {m} {key} {ty}").unwrap(),
+                    2 => writeln!(out, "readd {m} {key} {ty}").unwrap(),
+                    _ => {
+                        let v = if ty == "str" { format!("w{}", r.below(9)) } else { format!("{}", r.below(90)) };
+                        writeln!(out, "write {m} {key} {ty} {v}").unwrap()
+                    }
+                }
+            }
+            writeln!(out, "props {m}").unwrap();
+        }
+        writeln!(out, "end").unwrap();
+    }
+    out
+}
+
+// ------------------------------------------------------------------------------------- executor
+
+fn yaml_of(entries: &[&str]) -> String {
+    let mut s = String::new();
+    for e in entries {
+        let (k, v) = e.split_once('=').unwrap_or((e, ""));
+        writeln!(s, "\"{k}\": \"{v}\"").unwrap();
+    }
+    if entries.is_empty() {
+        s.push_str("{}\n");
+    }
+    s
+}
+
+fn ren_str(s: &str) -> String {
+    if s.is_empty() {
+        "~".to_string()
+    } else {
+        s.to_string()
+    }
+}
+
+fn ren_val(v: &Value) -> String {
+    match v {
+        Value::String(s) => ren_str(s),
+        Value::Number(n) => format!("#{n}"),
+        Value::Bool(b) => format!("bool:{b}"),
+        Value::Null => "null".to_string(),
+        Value::Mapping(m) => {
+            let parts: Vec<String> = m.iter().map(|(k, v)| format!("{}:{}", ren_val(k), ren_val(v))).collect();
+            format!("{{{}}}", parts.join(","))
+        }
+        _ => "?".to_string(),
+    }
+}
+
+fn ren_props(mut kv: Vec<(String, Option<Value>)>) -> String {
+    kv.sort_by(|a, b| a.0.cmp(&b.0));
+    if kv.is_empty() {
+        return "-".to_string();
+    }
+    kv.iter()
+        .map(|(k, v)| format!("{}={}", ren_str(k), v.as_ref().map_or("!".to_string(), ren_val)))
+        .collect::<Vec<_>>()
+        .join(";")
+}
+
+trait Ren: PropType + Clone + Default {
+    fn ren(&self) -> String;
+    fn parse(s: &str) -> Self;
+}
+impl Ren for String {
+    fn ren(&self) -> String {
+        format!("s:{}", ren_str(self))
+    }
+    fn parse(s: &str) -> Self {
+        s.to_string()
+    }
+}
+impl Ren for u64 {
+    fn ren(&self) -> String {
+        format!("n:{self}")
+    }
+    fn parse(s: &str) -> Self {
+        s.parse().unwrap_or(0)
+    }
+}
+
+fn typed<T: Ren>(m: &ModuleRef, op: &str, key: &str, val: Option<&str>) -> String {
+    let p: Result<Prop<T>, std::io::Error> = m.prop::<T>(key);
+    match p {
+        Err(e) if e.kind() == ErrorKind::InvalidInput => "invalid".to_string(),
+        Err(_) => "other".to_string(),
+        Ok(mut p) => match op {
+            "read" => p.get().map_or("none".to_string(), |v| v.ren()),
+            "readd" => p.or_default().get().ren(),
+            _ => {
+                p.set(T::parse(val.unwrap_or("0")));
+                "ok".to_string()
+            }
+        },
+    }
+}
+
+pub fn exec(input: &str) -> String {
+    let mut out = String::new();
+    for (header, body) in cases(input) {
+        writeln!(out, "{header}").unwrap();
+        let mut sim = Some(Sim::new(()));
+        let mut dead = false;
+        for line in body {
+            if dead {
+                break;
+            }
+            let tok: Vec<&str> = line.split_whitespace().collect();
+            let ans: String = match tok.as_slice() {
+                ["cfg", entries @ ..] => {
+                    let text = yaml_of(entries);
+                    let parses = serde_yml::from_str::<Value>(&text).is_ok();
+                    let s = sim.as_mut().unwrap();
+                    match guarded(|| s.include_cfg(&text)) {
+                        Ok(()) => if parses { "ok" } else { "err" }.to_string(),
+                        Err(_) => {
+                            dead = true; // locks inside the builder are poisoned now
+                            "panic".to_string()
+                        }
+                    }
+                }
+                ["node", path] => {
+                    let s = sim.as_mut().unwrap();
+                    match guarded(|| {
+                        s.node(*path, Empty);
+                    }) {
+                        Ok(()) => "ok".to_string(),
+                        Err(_) => "panic".to_string(),
+                    }
+                }
+                ["props", path] => {
+                    let s = sim.as_ref().unwrap();
+                    match guarded(|| {
+                        s.globals().get(&ObjectPath::from(*path)).map(|m| {
+                            let kv = m.props_keys().into_iter().map(|k| {
+                                let v = m.prop_raw(&k).as_value();
+                                (k, v)
+                            });
+                            ren_props(kv.collect())
+                        })
+                    }) {
+                        Ok(Some(s)) => s,
+                        Ok(None) => "nomod".to_string(),
+                        Err(_) => {
+                            dead = true;
+                            "panic".to_string()
+                        }
+                    }
+                }
+                ["cap", path, entries @ ..] => {
+                    let text = yaml_of(entries);
+                    match serde_yml::from_str::<Value>(&text) {
+                        Err(_) => "err".to_string(),
+                        Ok(v) => {
+                            let parts: Vec<&str> = path.split('.').collect();
+                            match guarded(|| {
+                                let cfg = Cfg::new(v);
+                                let mut props: Props = cfg.capture_for_into(&parts);
+                                let kv = props.keys().into_iter().map(|k| {
+                                    let v = props.get_raw(&k).as_value();
+                                    (k, v)
+                                });
+                                ren_props(kv.collect())
+                            }) {
+                                Ok(s) => s,
+                                Err(_) => "panic".to_string(),
+                            }
+                        }
+                    }
+                }
+                [op @ ("read" | "readd" | "write"), path, key, ty, rest @ ..] => {
+                    let s = sim.as_ref().unwrap();
+                    let val = rest.first().copied();
+                    match guarded(|| {
+                        s.globals().get(&ObjectPath::from(*path)).map(|m| match *ty {
+                            "str" => typed::<String>(&m, op, key, val),
+                            _ => typed::<u64>(&m, op, key, val),
+                        })
+                    }) {
+                        Ok(Some(s)) => s,
+                        Ok(None) => "nomod".to_string(),
+                        Err(_) => {
+                            dead = true;
+                            "panic".to_string()
+                        }
+                    }
+                }
+                _ => continue,
+            };
+            writeln!(out, "{line} -> {ans}").unwrap();
+        }
+        let s = sim.take();
+        let dropped = guarded(move || drop(s));
+        writeln!(out, "end{}", if dropped.is_err() { " drop-panic" } else { "" }).unwrap();
+    }
+    out
 }
